@@ -18,6 +18,43 @@ def specRun (p : Pipe) (r : Run) (o : ObsRun) : Bool × String :=
     else (false, s!"want ok {fmtVs want}")
   | _, _ => (true, "")
 
+/- The list-level meaning with the cluster clause of the property taken literally: "maximal runs of equal classifier"
+needs no sortedness when the factory reads its whole cluster (`sum`): the code then closes a cluster exactly where the
+classifier changes, in either direction.  (`Spec.eval`, about which `C04_pipe` is proved, is defined on sorted input only,
+because factories that stop early make the code check the order while it skips; outside that domain this function is
+used spec-only.) -/
+-- (doc comment above belongs to `evalLoose`)
+mutual
+def evalLoose : Pipe → Option (List V)
+  | .src _ xs _ => some (xs.map V.int)
+  | .lc _ p => evalLoose p
+  | .map f p => (evalLoose p).map (·.map f.app)
+  | .filter g p => (evalLoose p).map (·.filter g.app)
+  | .limit n _ p => if n ≤ 0 then some [] else (evalLoose p).map (·.take n.toNat)
+  | .skip n _ p => (evalLoose p).map (·.drop n)
+  | .concat ps _ _ _ => (evalLooseList ps).map List.flatten
+  | .zip ps _ => (evalLooseList ps).map Spec.zipRows
+  | .merge ps _ _ =>
+    match evalLooseList ps with
+    | some ls => if ls.all (Spec.sortedBy V.key) then some (ls.flatten.mergeSort (fun a b => a.key ≤ b.key)) else none
+    | none => none
+  | .window s st o _ _ _ p =>
+    if !windowParamsOk s st then none
+    else (evalLoose p).map (fun l => (Spec.windows s st o (l.length + 1) l).map (fun w => V.arr (w.flatMap V.flat)))
+  | .cluster k fac _ _ _ _ p =>
+    match evalLoose p with
+    | some l =>
+      if k > 0 && (Spec.sortedBy (classify k) l || fac == .sum) then some (Spec.clusterOut k fac none (Spec.runs k l))
+      else none
+    | none => none
+def evalLooseList : PipeList → Option (List (List V))
+  | .nil => some []
+  | .cons p ps =>
+    match evalLoose p, evalLooseList ps with
+    | some l, some ls => some (l :: ls)
+    | _, _ => none
+end
+
 def handle (c obs : String) : String × Bool × String :=
   if c.startsWith "L " then ShpanVerif.Drive.C04Ext.handle c obs else   -- second part of the family
   match parseCase c with
@@ -26,7 +63,18 @@ def handle (c obs : String) : String × Bool × String :=
     let model := agreeOr { } (modelText p rs) obs
     -- outside the property's domain (list-level meaning undefined: unsorted cluster/merge input, invalid
     -- window parameters) nothing is claimed and nothing is compared
-    if (Spec.eval p).isNone then (obs, true, "") else
+    if (Spec.eval p).isNone then
+      -- … except the cluster clause over unsorted input with a whole-cluster factory (spec-only, `evalLoose`)
+      match evalLoose p, parseObs obs, rs with
+      | some l, some [o], [r] =>
+        if r.fault.isSome then (obs, true, "") else
+        let want := match r.take with
+          | none => l
+          | some n => if n ≤ 0 then [] else l.take n.toNat
+        let ok := o.ok && o.delivered == fmtVs want
+        (obs, ok, if ok then "" else s!"want ok {fmtVs want} (maximal runs of equal classifier, unsorted input)")
+      | _, _, _ => (obs, true, "")
+    else
     match parseObs obs, rs with
     | some [o], [r] =>
       let (ok, why) := specRun p r o
